@@ -16,6 +16,9 @@ def main():
         i=only.index('--budget'); budget=float(only[i+1]); del only[i:i+2]
     import time; t0=time.time(); results=[]; skipped=0
     env=''
+    todo=None
+    if '--todo' in only:
+        i=only.index('--todo'); todo={tuple(x) for x in json.load(open(only[i+1]))}; del only[i:i+2]
     fast='--fast' in only
     if fast: only.remove('--fast')
     if '--scratch' in only:
@@ -34,6 +37,7 @@ def main():
         print('refusing: /repo has uncommitted changes to tracked files'); return 2
     for e in entries:
         if only and not any(o in e['name'] or o==e['prop'] for o in only): continue
+        if todo is not None and (e['prop'],e['name']) not in todo: continue
         if budget is not None and time.time()-t0 > budget:
             skipped+=1; continue
         n+=1
@@ -46,7 +50,7 @@ def main():
             b=sh('cd %s && go build ./%s/'%(REPO,os.path.dirname(e['file'])))
             if b.returncode!=0:
                 print('NOBUILD %-8s %s: %s'%(e['prop'],e['name'],b.stderr[:200])); bad+=1; continue
-            only=''
+            scope=''
             if fast and e['expect']=='fail' and '#' in e.get('obligation',''):
                 # the named obligation belongs to one function: generating only that function's VCs and solving only
                 # the named obligation decides the entry (the full check generates a superset of the same obligations)
@@ -54,8 +58,8 @@ def main():
                 fn=e['obligation'].split('#')[0]
                 fn=re.split(r'[.)]',fn)[-1]
                 fn=re.sub(r'(_\d+)+$','',fn)
-                if len(fn)>=3: only=" --only '%s' --oblig '%s'"%(fn,e['obligation'])
-            r=sh('cd /verif && %s./check %s --tier quick%s'%(env,e['prop'],only))
+                if len(fn)>=3: scope=" --only '%s' --oblig '%s'"%(fn,e['obligation'])
+            r=sh('cd /verif && %s./check %s --tier quick%s'%(env,e['prop'],scope))
             viol=[l for l in r.stdout.splitlines() if l.startswith('VIOLATION')]
             failed = r.returncode!=0
             ok = (failed if e['expect']=='fail' else not failed)
